@@ -65,7 +65,7 @@ theorem stats_args : Nsq.Gen.Proto.statsArgStmts = [
   "if !jsonFormat"] := rfl
 
 /-- (text) the two debug handlers: `Atoi(FormValue("rate"))` → 400, otherwise `nil, nil` (the nil
-result is what `PlainText` must cope with — finding F18). -/
+result is what `PlainText` must cope with — finding F24). -/
 theorem debug_handlers :
     Nsq.Gen.Proto.setBlockRateStmts = [
       "assign rate, err := strconv.Atoi(req.FormValue(\"rate\"))",
